@@ -38,6 +38,8 @@ def run(ctx):
     ctx.assume += ["documented preconditions respected (EpistemicUncertaintySampling: two classes; ParallelUtilityEstimationWrapper: batch_size=1; "
                    "enforce_mapping strategies: no feature-row candidates; FourDs: MixtureModelClassifier; RegressionTreeBasedAL: tree regressor)"]
     ctx.coq_props()
+    from ..skel import check_skeleton_table
+    check_skeleton_table(ctx)
     entries, cases, outs = collect(ctx, "c01")
     bcases, bmeta, tcases, tmeta, cscases, csmeta = [], [], [], [], [], []
     for case, out in zip(cases, outs):
